@@ -132,4 +132,102 @@ InvC20 == st = "done" => C20(vec, out)
 InvFunctional == st = "done" /\ Subject(vec) => out = Intended(vec)
 \* where do as-built and intended differ at all (informative; expected to fail for Variant="asbuilt" only)
 InvSameAsIntended == st = "done" => out = Intended(vec)
+
+---------------------------------------------------------------------------
+(***************************************************************************)
+(* Second binding: the per-connection chain                                *)
+(*   TLS acceptor --(channel of info/tls.rs)--> TlsConnectionInfoLayer's   *)
+(*   service (server/conn/tls/info.rs) --> ValidateSNI --> application.    *)
+(* The TLS handshake sends the connection info ONCE into a per-connection  *)
+(* channel; every request future of the connection asks the shared         *)
+(* receiver state (Pending / Received / Empty) for it, attaches it to the  *)
+(* request and only then calls ValidateSNI.  Request futures can be        *)
+(* cancelled (dropped) while they wait.  Property:                         *)
+(*   a request that arrived over TLS is judged against the connection's    *)
+(*   server name regardless of what happened to earlier requests on that   *)
+(*   connection                                                            *)
+(* i.e. every request that completes got the info (ConnInvInfo), so the    *)
+(* C20 clauses hold for it with tls = TRUE (ConnInvC20).                   *)
+(*                                                                         *)
+(* State (held in the variable `out`, scenario in `vec`, st = "conn"):     *)
+(*   info : state of the shared receiver;  chan : has the handshake sent;  *)
+(*   rq[r]: idle | queued (waits for the state lock) | waiting (holds the  *)
+(*          lock, awaits the channel) | done_info | done_none | dropped    *)
+(* External events: S r (request r starts; requests start in order),       *)
+(* D r (a suspended request future is dropped), H (handshake completes).   *)
+(* After every event the connection settles (lock hand-over is FIFO).      *)
+(* InfoVariant = "shared": the receiver stays in the shared state while    *)
+(* it is awaited (the pinned code).  "taken": it is moved out of the state *)
+(* for the wait (state Empty meanwhile) -- the variant TLC refutes.        *)
+(***************************************************************************)
+CONSTANT InfoVariant      \* "shared" | "taken"
+
+Reqs == 1..3
+Classes == {"match", "differ", "absent"}
+Scenarios == [ver : {"1.1", "2"}, sni : {"a", "none"}, cls : [Reqs -> Classes]]
+
+ConnInit0 == [info |-> "Pending", chan |-> "empty", hs |-> FALSE, rq |-> [r \in Reqs |-> "idle"]]
+
+MinOf(S) == CHOOSE x \in S : \A y \in S : x <= y
+
+RECURSIVE Settle(_)
+Settle(c) ==
+    IF \E r \in Reqs : c.rq[r] = "waiting" THEN c
+    ELSE LET Q == {r \in Reqs : c.rq[r] = "queued"} IN
+         IF Q = {} THEN c
+         ELSE LET r == MinOf(Q) IN
+              CASE c.info = "Received" -> Settle([c EXCEPT !.rq[r] = "done_info"])
+                [] c.info = "Empty"    -> Settle([c EXCEPT !.rq[r] = "done_none"])
+                [] c.info = "Pending" /\ c.chan = "sent" ->
+                        Settle([c EXCEPT !.rq[r] = "done_info", !.info = "Received"])
+                [] OTHER -> [c EXCEPT !.rq[r] = "waiting",
+                                      !.info = IF InfoVariant = "taken" THEN "Empty" ELSE "Pending"]
+
+Events == [e : {"S", "D"}, r : Reqs] \cup {[e |-> "H", r |-> 0]}
+EvEnabled(c, ev) ==
+    CASE ev.e = "S" -> c.rq[ev.r] = "idle" /\ \A q \in Reqs : q < ev.r => c.rq[q] # "idle"
+      [] ev.e = "D" -> c.rq[ev.r] \in {"waiting", "queued"}
+      [] OTHER      -> ~c.hs
+Step(c, ev) ==
+    CASE ev.e = "S" -> Settle([c EXCEPT !.rq[ev.r] = "queued"])
+      [] ev.e = "D" -> Settle([c EXCEPT !.rq[ev.r] = "dropped"])
+      [] OTHER ->
+           IF \E w \in Reqs : c.rq[w] = "waiting"
+             THEN LET w == CHOOSE w \in Reqs : c.rq[w] = "waiting" IN
+                  Settle([c EXCEPT !.rq[w] = "done_info", !.info = "Received", !.chan = "sent", !.hs = TRUE])
+             ELSE Settle([c EXCEPT !.chan = "sent", !.hs = TRUE])
+
+\* the request vector of request r of a scenario (canonical spelling of its class), as it arrived: over TLS
+ClassForm(cl) == CASE cl = "match" -> "a" [] cl = "differ" -> "b" [] OTHER -> "none"
+ScnReq(s, r) == [ver |-> s.ver, sni |-> s.sni, tls |-> TRUE,
+                 hosthdr |-> IF s.ver = "2" THEN "none" ELSE ClassForm(s.cls[r]),
+                 auth    |-> IF s.ver = "2" THEN ClassForm(s.cls[r]) ELSE "none"]
+\* what ValidateSNI decides for it: it sees the TLS info only if the chain delivered it
+ScnOutcome(s, r, status) == Decide([ScnReq(s, r) EXCEPT !.tls = (status = "done_info")])
+
+ConnInit == /\ vec \in Scenarios /\ st = "conn" /\ out = ConnInit0
+ConnNext == \E ev \in Events : /\ EvEnabled(out, ev)
+                               /\ out' = Step(out, ev)
+                               /\ UNCHANGED <<vec, st>>
+ConnSpec == ConnInit /\ [][ConnNext]_vars
+
+ConnTypeOK == /\ vec \in Scenarios /\ st = "conn"
+              /\ out.info \in {"Pending", "Received", "Empty"} /\ out.chan \in {"empty", "sent"}
+              /\ out.rq \in [Reqs -> {"idle", "queued", "waiting", "done_info", "done_none", "dropped"}]
+              /\ Cardinality({r \in Reqs : out.rq[r] = "waiting"}) <= 1
+ConnInvInfo == \A r \in Reqs : out.rq[r] # "done_none"
+ConnInvC20  == \A r \in Reqs : out.rq[r] \in {"done_info", "done_none"} =>
+                   C20(ScnReq(vec, r), ScnOutcome(vec, r, out.rq[r]))
+\* after the handshake nobody is left suspended
+ConnInvSettled == out.hs => \A r \in Reqs : out.rq[r] \notin {"waiting", "queued"}
+
+\* the maximal behaviours (event sequences) of the connection machine, for replay on the real chain
+RECURSIVE Behaviours(_)
+Behaviours(c) ==
+    LET En == {ev \in Events : EvEnabled(c, ev)} IN
+    IF En = {} THEN {<<>>}
+    ELSE UNION {{<<ev>> \o b : b \in Behaviours(Step(c, ev))} : ev \in En}
+RECURSIVE StatusTrace(_, _)
+StatusTrace(c, b) == IF b = <<>> THEN <<>>
+                     ELSE LET c2 == Step(c, b[1]) IN <<c2.rq>> \o StatusTrace(c2, Tail(b))
 =============================================================================
